@@ -960,7 +960,7 @@ def run(run: core.Run, tier: str):
       "12 stated ranges (containing / touching / excluding zero, degenerate points, both signs; tuple / list / ndarray / "
       "numpy-scalar / int forms), every other estimator model additionally for two zero-excluding ranges; measured on the "
       "exact worst-case corner of every output element (from the real layer's impulse responses); "
-      "analyze_accumulator_from_sample(conservative) on batches whose first sample spans / does not span the batch range, "
+      "analyze_accumulator_from_sample(conservative and sampled) on batches whose first sample spans / does not span the batch range, "
       "with one and with two quantized layers; inputs: all-max, all-min, sign-aligned and anti-aligned with "
       "each output channel's effective kernel, random lattice points; non-trivial = distinct (stream, family, "
       "weight/bias/activation quantizers, kernel shape); every tensor value is judged by Lean Val on the type "
@@ -1315,8 +1315,11 @@ def run(run: core.Run, tier: str):
       # ---- route analyze_accumulator_from_sample(mode="conservative"): the stated range is DERIVED from a sample batch
       #      at the layer's input.  Design "spans": the first sample already holds the batch minimum and maximum; design
       #      "narrow": the first sample is constant, the extremes come later in the batch.  Each on the model itself (ONE
-      #      quantized layer) and, for "narrow", on a twin with a second quantized layer beside it (predict returns a
-      #      list per layer there).  Judged against the range of the WHOLE batch: its own samples and the exact corners.
+      #      quantized layer: predict returns a bare array, which the function has to wrap — repaired finding
+      #      C18-from-sample-single-layer, fix round R) and, for "narrow", on a twin with a second quantized layer beside
+      #      it (predict returns a list per layer there).  Judged against the range of the WHOLE batch: its own samples
+      #      and the exact corners.  No known entry absorbs a failure here any more: a size derived from the first
+      #      sample only is a VIOLATION (and a model / implementation disagreement).  mode="sampled" is judged too.
       if spec.get("est_ranges") and b.items[0] is it and (idx % 2 == 0 or tier != "quick"):
         zr = [r_ for r_ in EST_RANGES if r_ != (0.0, 0.0)]
         lo_, hi_ = zr[(idx // 2) % len(zr)]
@@ -1343,6 +1346,13 @@ def run(run: core.Run, tier: str):
             impl = {"ok": int(res[lyr.name])}
           except (OverflowError, IndexError, ValueError) as e:
             impl = {"err": type(e).__name__}
+          # mode="sampled" (the other predict call of the function, same batch): its stated range is the sample itself
+          try:
+            with np.errstate(all="ignore"), quiet():
+              res_s = analyze_accumulator_from_sample(mdl, xb, mode="sampled")
+            impl_s = {"ok": int(res_s[lyr.name])}
+          except (OverflowError, IndexError, ValueError, KeyError) as e:
+            impl_s = {"err": type(e).__name__}
           fs_lines.append({"op": "from_sample", "single": single, "slices": slices, "bias": core.enc_list(bvec),
                            "samples": [core.enc_list(v.ravel()) for v in xb.astype(np.float64)]})
           pats = list(xb) + list(np.where(masks, hi_, lo_)) + list(np.where(masks, lo_, hi_))
@@ -1351,7 +1361,7 @@ def run(run: core.Run, tier: str):
           flat = np.abs(yb).reshape(len(xw), -1, yb.shape[-1]).max(axis=1)        # (inputs, channels)
           on_sample = flat[: len(xb)].max(axis=0)
           worst = int(np.argmax(flat.max(axis=1)))
-          fs_meta.append(dict(model=idx, cls=it["cls"], impl=impl, design=design, single=single, lo=lo_, hi=hi_,
+          fs_meta.append(dict(model=idx, cls=it["cls"], impl=impl, impl_sampled=impl_s, design=design, single=single, lo=lo_, hi=hi_,
                               shape=[int(v) for v in k.shape], padding=g["padding"], per_chan=[float(v) for v in flat.max(axis=0)],
                               per_chan_on_sample=[float(v) for v in on_sample], range_class=range_class(lo_, hi_),
                               input_shape=list(ish), kernel=[float(v) for v in k.ravel()[:64]], bias=[float(v) for v in bvec],
@@ -1562,6 +1572,15 @@ def run(run: core.Run, tier: str):
               "max_abs_output_per_channel_on_the_batch_range": meta["per_chan"], "input_shape": meta["input_shape"],
               "kernel_values_flat": meta["kernel"], "bias_values": meta["bias"],
               "failing_input_flat": meta["worst_input"], "failing_input_is_a_sample": meta["worst_is_sample"]}
+    # mode="sampled": 2^size bounds every output of every sample of the batch (no model: judged on the real outputs)
+    run.compared += 1
+    ims = meta["impl_sampled"]
+    top = max(meta["per_chan_on_sample"]) if meta["per_chan_on_sample"] else 0.0
+    if "err" in ims or top > 2.0 ** ims["ok"]:
+      run.violate("estimator_bounds_output", dict(key, mode="sampled", exc=ims.get("err")),
+                  dict(detail, result=ims, model_result=None), mirrored=False)
+    else:
+      run.count("from_sample_sampled_ok")
     if "err" in meta["impl"]:
       run.count("from_sample_raises_" + meta["impl"]["err"])
       if meta["impl"]["err"] != "OverflowError" or any(v > 0 for v in meta["per_chan"]):
